@@ -263,6 +263,8 @@ class StmtMixin(object):
             lt = getattr(self.contract, 'local_types', {}).get(target.id) if self.contract is not None else None
             if lt is not None and isinstance(val.ty, TList) and val.ty.elem == NONE and isinstance(lt, TList):
                 val = self.L_empty(lt.elem)      # `x = []` for a local whose element sort the contract declares
+            if lt is not None and isinstance(val.ty, TDict) and not val.t and isinstance(lt, TDict):
+                val = self.empty_dict(lt)        # `x = {}` likewise
             return [st.setvar(target.id, val)]
         if isinstance(target, (ast.Tuple, ast.List)):
             items = self.unpack(st, val, len(target.elts), node)
@@ -432,6 +434,10 @@ class StmtMixin(object):
         if isinstance(s.test, ast.Name) and s.test.id == 'IS_WINDOWS' and 'IS_WINDOWS' not in st.env:
             self.dropped.append('if IS_WINDOWS@%d' % s.lineno)
             return self.ex_block(s.orelse, st)
+        if isinstance(s.test, ast.UnaryOp) and isinstance(s.test.op, ast.Not) and isinstance(s.test.operand, ast.Name) \
+                and s.test.operand.id == 'IS_WINDOWS' and 'IS_WINDOWS' not in st.env:
+            self.dropped.append('if not IS_WINDOWS@%d' % s.lineno)
+            return self.ex_block(s.body, st)
 
         def k(s2, v):
             c = self.truthy(s2, v)
